@@ -103,6 +103,14 @@ def _run_distribution(ctx, steps, dims, qubits, circuit, kind, wit, reps=1):
     return ex
 
 
+def _rekey_op(op, mp):
+    """the protocol answers NotImplemented for operations that have no keys at all (documented)"""
+    import cirq
+
+    r = cirq.with_measurement_key_mapping(op, mp)
+    return op if r is NotImplemented else r
+
+
 def sec_run(ctx, rng, case):
     import cirq
 
@@ -127,11 +135,33 @@ def sec_run(ctx, rng, case):
     layout = ["greedy", "serial"][int(rng.integers(2))]
     circuit = P.to_circuit(steps, qubits, rng, layout)
     ref = I.distribution(I.run(P.to_ref(steps), dims))
+    rekey = None
+    mkeys = sorted({s["key"] for s in steps if s["t"] in ("M", "PM") and "key" in s})
+    if mkeys and rng.random() < 0.3:
+        # the same program after its keys were renamed / prefixed (a measurement keeps its mask and confusion map,
+        # controls follow their key): same distribution under the new names
+        mode = int(rng.integers(3))
+        if mode == 1:
+            f = {k: "p:" + k for k in mkeys}
+            circuit = cirq.with_key_path_prefix(circuit, ("p",))
+            rekey = "with_key_path_prefix"
+        else:
+            sub = [k for k in mkeys if rng.random() < 0.7] or mkeys[:1]
+            f = {k: (k + "_r" if k in sub else k) for k in mkeys}
+            mp = {k: f[k] for k in sub}
+            if mode == 0:
+                circuit = cirq.with_measurement_key_mapping(circuit, mp)
+                rekey = "with_measurement_key_mapping(circuit)"
+            else:
+                circuit = cirq.Circuit(cirq.Moment(_rekey_op(op, mp) for op in m) for m in circuit)
+                rekey = "with_measurement_key_mapping(op)"
+        ref = {tuple(sorted((f[k], inst) for k, inst in rec)): p for rec, p in ref.items()}
+        ctx.event("rekeyed:" + rekey)
     kinds = [SIMS[int(i)] for i in rng.choice(len(SIMS), size=2, replace=False)]
     nontriv = sum(1 for p in ref.values() if p > 1e-6) >= 2
     both = any(s["t"] == "M" and s.get("mask") and s.get("conf") for s in steps)
     for kind in kinds:
-        wit = dict(dims=dims, program=P.describe(steps), layout=layout, simulator=kind, terminal=_is_terminal_only(steps))
+        wit = dict(dims=dims, program=P.describe(steps), layout=layout, simulator=kind, terminal=_is_terminal_only(steps), rekey=rekey)
         ex = _run_distribution(ctx, steps, dims, qubits, circuit, kind, wit)
         if ex.over_budget:
             ctx.event("explorer-over-budget")
@@ -540,8 +570,9 @@ def sec_subcircuits(ctx, rng, case):
     dims = (2,) * n
     items = C12._gen_shadow(rng, n, int(rng.integers(2, 4)), False)
     flat = B.flatten(items)
-    if not any(it["t"] == "B" for it in items) or B.flat_unbound_controls(flat) or B.count_digits(items) > 8 or not any(s_["t"] == "M" for s_ in flat):
-        ctx.reject("generator: no block / unbound control / too many digits")
+    if (not any(it["t"] == "B" for it in items) or B.flat_unbound_controls(flat) or B.count_digits(items) > 8
+            or not any(s_["t"] == "M" for s_ in flat) or B.flat_index_errors(flat)):
+        ctx.reject("generator: no block / unbound control / record index not there yet / too many digits")
         return
     qubits = P.make_qubits(rng, dims)
     circuit = cirq.Circuit(B.items_to_moments(items, qubits))
